@@ -14,10 +14,11 @@ theorem ackSess_idle (x : Session) (a b : Int) (h : x.outpacket.len = 0) : ackSe
 theorem srv_ping_idle {P : Par} (hP : P.Ok) {s : Srv} (hS : SStat P s) (hi : IdleImm (getUser s P.u))
     (hoq : (getUser s P.u).oqFilled = 0)
     {Q : Query} {a b : Int} {sd : Nat} (hQ : PingQ P Q a b sd)
-    {k : Nat} (hA : Aged P (getUser s P.u) k 1) (hPA : PAged P (getUser s P.u) sd 1) :
+    {k sl sp : Nat} (hA : Aged P (getUser s P.u) k sl) (hPA : PAged P (getUser s P.u) sd sp)
+    (hsp : 1 ≤ sp ∧ sp ≤ 999 := by omega) :
     ∃ s' evs t pkt, iteration s (.q Q) s.now = (s', evs, t) ∧ downOfEvents evs = [.ans Q.id Q.type Q.name pkt] ∧
       tunOfSEvents evs = [] ∧ AfterDup P s s' pkt ∧
-      Aged P (getUser s' P.u) k 1 ∧ PAged P (getUser s' P.u) ((sd + 1) % 65536) 1 := by
+      Aged P (getUser s' P.u) k sl ∧ PAged P (getUser s' P.u) ((sd + 1) % 65536) sp := by
   obtain ⟨dlen, hdl, h2, h4, huid, ha, hb, hc2, hc3⟩ := hQ.parse
   obtain ⟨cp, hcp, hfl, hf2, hf3⟩ := hQ.fp
   have htop := topSess_live hS
@@ -26,8 +27,8 @@ theorem srv_ping_idle {P : Par} (hP : P.Ok) {s : Srv} (hS : SStat P s) (hi : Idl
   have hx0s : XStat P x0 := by subst hx0; exact ⟨hS.x.active, hS.x.auth, hS.x.enabled, hS.x.conn, hS.x.enc, hS.x.oseq, hS.x.ofrag, hS.x.iseq, hS.x.ifrag⟩
   have hx0i : IdleImm x0 := by subst hx0; exact ⟨hi.out, hi.q, hi.qs, hi.lazy⟩
   have hx0oq : x0.oqFilled = 0 := by subst hx0; exact hoq
-  have hx0A : Aged P x0 k 1 := by subst hx0; exact hA.congr rfl rfl rfl rfl
-  have hx0P : PAged P x0 sd 1 := by subst hx0; exact hPA.congr rfl rfl rfl rfl
+  have hx0A : Aged P x0 k sl := by subst hx0; exact hA.congr rfl rfl rfl rfl
+  have hx0P : PAged P x0 sd sp := by subst hx0; exact hPA.congr rfl rfl rfl rfl
   have hx0n : x0.inpacket = (getUser s P.u).inpacket := by subst hx0; rfl
   have hx0o : x0.outpacket = (getUser s P.u).outpacket := by subst hx0; rfl
   have hx0h : x0.host = (getUser s P.u).host := by subst hx0; rfl
@@ -111,12 +112,12 @@ theorem srv_ping_idle {P : Par} (hP : P.Ok) {s : Srv} (hS : SStat P s) (hi : Idl
         rw [this, hx0n]
   · rw [hg]
     subst hY
-    have hyA : Aged P y k 1 := by subst hy; exact hx0A.congr rfl rfl rfl rfl
+    have hyA : Aged P y k sl := by subst hy; exact hx0A.congr rfl rfl rfl rfl
     have := hyA.memo_ping hP.hu Q (scPkt y 0) (scPkt0_len y) hQ.c0 cp hcp hfl
     exact this.congr rfl rfl rfl rfl
   · rw [hg]
     subst hY
-    have hyP : PAged P y sd 1 := by subst hy; exact hx0P.congr rfl rfl rfl rfl
+    have hyP : PAged P y sd sp := by subst hy; exact hx0P.congr rfl rfl rfl rfl
     have := (hyP.step hQ.sdlt (by omega)).memo Q (scPkt y 0) (scPkt0_len y) sd 1 ⟨by omega, by omega⟩ (behind_next16 sd hQ.sdlt) hQ.c0 cp hcp hfl hf2 hf3 hQ.seed
     exact this.congr rfl rfl rfl rfl
 
